@@ -24,3 +24,29 @@ V('C05', 'adapter-removed', D, 'edb.pgsql.delta.RenameIndex',
   'adapts=s_indexes.RenameIndex', 'metaclass=type', 'C05.R4', 'RenameIndex')
 V('C05', 'neg-comment', C, 'edb.pgsql.common.get_pointer_backend_name',
   "    if aspect is None:\n        aspect = 'table'", "    if aspect is None:\n        # default aspect\n        aspect = 'table'", None)
+
+T = 'edb/pgsql/types.py'
+V('C05', 'ir-side-keeps-source-target-names', T, 'edb.pgsql.types._get_ptrref_storage_info',
+  "            if ptrname.startswith('__') or ptrname == 'id':", "            if ptrname.startswith('__') or ptrname in ('id', 'source', 'target'):", 'C05.R6', 'column-name:ObjectType')
+V('C05', 'schema-side-lprop-by-id-only', T, 'edb.pgsql.types.get_pointer_storage_info',
+  "        if pointer.get_shortname(schema).name == 'source':", "        if pointer.get_shortname(schema).name == 'src':", 'C05.R6', 'column-name:link')
+V('C05', 'link-table-target-renamed', T, 'edb.pgsql.types._pointer_table_info',
+  "    col_name = 'target'", "    col_name = 'tgt'", 'C05.R6', 'link-table-target')
+V('C05', 'ir-multi-lprops-disagree', T, 'edb.pgsql.types._ptrref_storable_in_pointer',
+  '''            ptrref.out_cardinality.is_multi()
+            or ptrref.has_properties''', '''            ptrref.out_cardinality.is_multi()''', 'C05.R6', 'storable:_pointer_storable_in_pointer')
+V('C05', 'delete-prop-asks-old-schema', 'edb/pgsql/delta.py', 'edb.pgsql.delta.PropertyMetaCommand._delete_property',
+  '        if types.has_table(source, schema):', '        if types.has_table(source, orig_schema):', 'C05.R7', '_delete_property:has_table(source)')
+# negative control: the IR side moves its rule into a helper, unchanged
+V('C05', 'neg-ir-naming-through-helper', T, 'edb.pgsql.types._get_ptrref_storage_info',
+  '''            ptrname = ptrref.shortname.name
+            if ptrname.startswith('__') or ptrname == 'id':
+                col_name = ptrname
+            else:
+                col_name = str(ptrref.id)
+            table_type = 'ObjectType\'''', '''            table_type = 'ObjectType'
+            nm = ptrref.shortname.name
+            if nm == 'id' or nm.startswith('__'):
+                col_name = nm
+            else:
+                col_name = str(ptrref.id)''', None)
